@@ -5,9 +5,11 @@
    What is followed line by line (context.go unless said otherwise):
      Execute            95-129   load previous sum when All (96-106), package loop in sorted order,
                                  non-direct packages skipped unless All (108-116), sum saved last (118-126)
-     pkgChanged        131-141
+     pkgChanged        131-142   Force / no previous sums / empty current hash (directory could not be hashed: never
+                                 cached, repair of #27) / recorded <> current
      pkgExecute        143-242   generatedFiles by prefix base+"." (174-179), per generator a fresh
-                                 instance/buffer (191-204), doGenerate (208), deferred callbacks (212-216),
+                                 instance/buffer (191-204), doGenerate (208), deferred callbacks (212-217: an INDEX
+                                 loop over c.defers, so callbacks registered by a callback run too),
                                  IsZero with the ignore flag (71-73, 218-220), write of every retained
                                  genfile in sync.Map order striking it from the removal set (223-231),
                                  removal of the rest (233-239)
@@ -120,7 +122,7 @@ Record args := { a_all : bool; a_force : bool; a_base : bytes (* OutputFileBaseN
 
 Inductive gresult := RNil | RSkip | RIgnore | RErr | RDie.
 (* RSkip / RIgnore: an error for which errors.Is(err, ErrSkip / ErrIgnore) holds (wrapped or not);
-   RErr: any other non-nil error; RDie: the process ends inside the call (os.Exit, fatal signal, panic). *)
+   RErr: any other non-nil error; RDie: the call never returns to Execute (os.Exit, fatal signal, panic, or it loops). *)
 
 Record step_out := {
   so_body : bytes;            (* what the call rendered into the generator's buffer *)
@@ -134,7 +136,12 @@ Record generator := {
   g_state : Type;
   g_new : pkginfo -> g_state;                                (* GeneratorNewer.New(ctx) / reflect.New of the prototype *)
   g_type : g_state -> pkginfo -> tyinfo -> g_state * step_out;   (* GenerateType / GenerateAliasType *)
-  g_defer : g_state -> pkginfo -> nat -> g_state * step_out      (* a deferred callback; its own Defer calls are never run *)
+  g_defer : g_state -> pkginfo -> nat -> g_state * step_out;     (* a deferred callback; what it registers with Defer is
+                                                                    appended to the queue (so_defers) and runs too *)
+  g_fuel : nat               (* a bound on the number of deferred callbacks run for one package.  The Go loop
+                                `for i := 0; i < len(c.defers); i++` need not terminate (a callback may always register
+                                another one); a queue that outlives the bound is the run that never returns from
+                                pkgExecute: [Died] (no further effect, Execute never reports). *)
 }.
 
 Inductive event :=
@@ -198,12 +205,13 @@ Definition load_prev (a : args) (w : world) (s : fs) : option (list (bytes * byt
     end
   else None.
 
-(* pkgChanged 131-141 *)
+(* pkgChanged 131-142:  current.Sum(pkgPath) == "" || previous.Sum(pkgPath) != current.Sum(pkgPath) *)
 Definition pkg_changed (a : args) (w : world) (prev : option (list (bytes * bytes))) (p : pkginfo) : bool :=
   if a_force a then true else
   match prev with
   | None => true
-  | Some d => negb (bytes_eqb (sum_get d (pk_path p)) (sum_get (current_sum w) (pk_path p)))
+  | Some d => is_nil (sum_get (current_sum w) (pk_path p))
+              || negb (bytes_eqb (sum_get d (pk_path p)) (sum_get (current_sum w) (pk_path p)))
   end.
 
 Definition selected (a : args) (w : world) (p : pkginfo) : bool := a_all a || is_direct w p.
@@ -257,22 +265,27 @@ Fixpoint call_loop (g : generator) (p : pkginfo) (st : g_state g) (tys : list ty
       else call_loop g p st r
   end.
 
-(* 212-216: every non-nil result of a callback is an error *)
-Fixpoint defer_loop (g : generator) (p : pkginfo) (st : g_state g) (ids : list nat) : run_out (g_state g) :=
+(* 212-217: `for i := 0; i < len(c.defers); i++`; every non-nil result of a callback is an error.
+   [ids] is the part of c.defers not yet run; what a callback registers is appended to it. *)
+Fixpoint defer_loop (fuel : nat) (g : generator) (p : pkginfo) (st : g_state g) (ids : list nat) : run_out (g_state g) :=
   match ids with
   | [] => {| ro_state := st; ro_body := []; ro_ignore := false; ro_defers := []; ro_trace := []; ro_out := Done |}
   | i :: r =>
-      let '(st', o) := g_defer g st p i in
-      let ev := EvDefer (g_name g) (pk_path p) i (so_body o) (so_res o) in
-      match so_res o with
-      | RNil =>
-          let rest := defer_loop g p st' r in
-          {| ro_state := ro_state rest; ro_body := so_body o ++ ro_body rest; ro_ignore := false;
-             ro_defers := []; ro_trace := ev :: ro_trace rest; ro_out := ro_out rest |}
-      | RDie => {| ro_state := st'; ro_body := so_body o; ro_ignore := false; ro_defers := [];
-                   ro_trace := [ev]; ro_out := Died |}
-      | _ => {| ro_state := st'; ro_body := so_body o; ro_ignore := false; ro_defers := [];
-                ro_trace := [ev]; ro_out := Failed (EDefer (g_name g) (pk_path p)) |}
+      match fuel with
+      | O => {| ro_state := st; ro_body := []; ro_ignore := false; ro_defers := []; ro_trace := []; ro_out := Died |}
+      | S fuel' =>
+          let '(st', o) := g_defer g st p i in
+          let ev := EvDefer (g_name g) (pk_path p) i (so_body o) (so_res o) in
+          match so_res o with
+          | RNil =>
+              let rest := defer_loop fuel' g p st' (r ++ so_defers o) in
+              {| ro_state := ro_state rest; ro_body := so_body o ++ ro_body rest; ro_ignore := false;
+                 ro_defers := []; ro_trace := ev :: ro_trace rest; ro_out := ro_out rest |}
+          | RDie => {| ro_state := st'; ro_body := so_body o; ro_ignore := false; ro_defers := [];
+                       ro_trace := [ev]; ro_out := Died |}
+          | _ => {| ro_state := st'; ro_body := so_body o; ro_ignore := false; ro_defers := [];
+                    ro_trace := [ev]; ro_out := Failed (EDefer (g_name g) (pk_path p)) |}
+          end
       end
   end.
 
@@ -283,7 +296,7 @@ Definition gen_run (g : generator) (p : pkginfo) : gen_out :=
   let c := call_loop g p (g_new g p) (sort_by ty_name (pk_types p)) in
   match ro_out c with
   | Done =>
-      let d := defer_loop g p (ro_state c) (ro_defers c) in
+      let d := defer_loop (g_fuel g) g p (ro_state c) (ro_defers c) in
       {| go_body := ro_body c ++ ro_body d; go_ignore := ro_ignore c;
          go_trace := ro_trace c ++ ro_trace d; go_out := ro_out d |}
   | bad => {| go_body := ro_body c; go_ignore := ro_ignore c; go_trace := ro_trace c; go_out := bad |}
